@@ -37,16 +37,16 @@ Proof.
   - apply qeq_true in E. subst. now apply qeq_true.
   - destruct (qeq (k * a) (k * b)) eqn:E'; [|reflexivity]. apply qeq_true in E'.
     assert (a = b) as ->.
-    { rewrite <- (Qcmult_div_r a k Hk0), <- (Qcmult_div_r b k Hk0). unfold Qcdiv.
-      rewrite !Qcmult_assoc, !(Qcmult_comm k), E'. reflexivity. }
+    { transitivity ((k * a) / k); [field; exact Hk0|]. rewrite E'. field; exact Hk0. }
     assert (qeq b b = true) by now apply qeq_true. congruence.
 Qed.
 
 Definition sgn (q : Qc) : comparison := if qlt 0 q then Gt else if qlt q 0 then Lt else Eq.
 Lemma sgn_scale k q : 0 < k -> sgn (k * q) = sgn q.
 Proof.
-  intros Hk. unfold sgn. replace 0 with (k * 0) at 1 3 by ring.
-  now rewrite !(qlt_scale _ _ Hk).
+  intros Hk. unfold sgn. assert (E0 : k * 0 = 0) by ring.
+  pose proof (qlt_scale k 0 q Hk) as A. pose proof (qlt_scale k q 0 Hk) as B.
+  rewrite E0 in A, B. now rewrite A, B.
 Qed.
 Lemma sgn_Eq q : sgn q = Eq -> q = 0.
 Proof.
@@ -143,19 +143,19 @@ Section Laws.
   Lemma scl_by_sign_l k q i : 0 < k -> by_sign (k * q) i = by_sign q i.
   Proof. intros Hk. unfold by_sign. now rewrite sgn_scale. Qed.
   Lemma scl_by_sign_r k q i : by_sign q (scl k i) = scl k (by_sign q i).
-  Proof. unfold by_sign. destruct (sgn q); [now rewrite scl_zero|reflexivity|apply scl_neg]. Qed.
+  Proof. unfold by_sign. destruct (sgn q); [now rewrite scl_zero|apply scl_neg|reflexivity]. Qed.
   Lemma scl_inf_id k i : xis_inf i = true -> scl k i = i.
   Proof. now destruct i. Qed.
   Lemma scl_mul_r k a r : 0 < k -> xmul (scl k a) r = scl k (xmul a r).
   Proof.
     intros Hk. destruct a as [p| |], r as [q| |]; cbn -[by_sign]; try reflexivity;
-      rewrite ?(scl_by_sign_l _ _ Hk); try (f_equal; ring);
+      rewrite ?(scl_by_sign_l _ _ _ Hk); try (f_equal; ring);
       unfold by_sign; destruct (sgn _); cbn; try reflexivity; unfold xzero; f_equal; ring.
   Qed.
   Lemma scl_mul_l k r a : 0 < k -> xmul r (scl k a) = scl k (xmul r a).
   Proof.
     intros Hk. destruct a as [p| |], r as [q| |]; cbn -[by_sign]; try reflexivity;
-      rewrite ?(scl_by_sign_l _ _ Hk); try (f_equal; ring);
+      rewrite ?(scl_by_sign_l _ _ _ Hk); try (f_equal; ring);
       unfold by_sign; destruct (sgn _); cbn; try reflexivity; unfold xzero; f_equal; ring.
   Qed.
   Lemma scl_div_r k a r : xdiv (scl k a) r = scl k (xdiv a r).
@@ -165,8 +165,8 @@ Section Laws.
   Qed.
   Lemma scl_div k a b : 0 < k -> xdiv (scl k a) (scl k b) = xdiv a b.
   Proof.
-    intros Hk. pose proof (pos_neq Hk) as Hk0.
-    destruct a as [p| |], b as [q| |]; cbn; try reflexivity; rewrite ?(sgn_scale _ Hk); try reflexivity.
+    intros Hk. pose proof (pos_neq _ Hk) as Hk0.
+    destruct a as [p| |], b as [q| |]; cbn; try reflexivity; rewrite ?(sgn_scale _ _ Hk); try reflexivity.
     f_equal. destruct (Qc_eq_dec q 0) as [->|Hq].
     - unfold Qcdiv. replace (k * 0) with 0 by ring. change (/ 0) with 0. ring.
     - field. split; assumption.
@@ -194,3 +194,76 @@ Proof. destruct a, b; cbn; try discriminate; try reflexivity. intros H. apply qe
 
 Lemma ord_laws : OrdLaws xltb xeqb.
 Proof. constructor; [exact xltb_irrefl|exact xltb_trans|exact xeqb_eq]. Qed.
+
+(* ------------------------------------------------------------------ *)
+(* The theorem, closed for this number structure: every positive rational
+   pair of factors, every loss function satisfying [LossFlat]. *)
+Section Closed.
+  Variables kx ky : Qc.
+  Hypothesis Hkx : 0 < kx.
+  Hypothesis Hky : 0 < ky.
+  Variable L : list (option xq) -> list (option (Y xq)) -> xq.
+  Hypothesis LF : LossFlat xsub xdiv xltb xeqb xzero xone xis_nan L (scl ky).
+  Variable P : params xq.
+
+  Notation xrun := (run xadd xsub xmul xdiv xltb xeqb xzero xone PInf NInf xis_nan xis_inf xround12 xof_nat L).
+  Notation xtrace := (trace xadd xsub xmul xdiv xltb xeqb xzero xone PInf NInf xis_nan xis_inf xround12 xof_nat L).
+  Notation xloss := (loss xsub xdiv xltb xeqb PInf xis_nan xis_inf xround12).
+  Notation xinit := (init xsub xzero PInf NInf).
+  Notation xlegal := (legal xadd xsub xmul xdiv xltb xeqb xzero xone PInf NInf xis_nan xis_inf xround12 xof_nat L).
+
+  Theorem l1d_scale_equivariant_rational (vec : bool) (h : list (op xq)) :
+    xlegal P vec (xinit P) h ->
+    let P' := sc_P (scl kx) P in
+    let h' := map (sc_op (scl kx) (scl ky)) h in
+    xrun P' (xinit P') h' = sc_st (scl kx) (scl ky) (xrun P (xinit P) h)
+    /\ xtrace P' (xinit P') h' = map (sc_out (scl kx)) (xtrace P (xinit P) h)
+    /\ forall real, xloss P' (xrun P' (xinit P') h') real = xloss P (xrun P (xinit P) h) real.
+  Proof.
+    intros Hl. exact (@l1d_scale_equivariant _ _ _ _ _ _ _ _ _ _ _ _ _ _ _ _ _ _ _ (laws kx ky Hkx Hky) ord_laws LF vec h Hl).
+  Qed.
+End Closed.
+
+(* ------------------------------------------------------------------ *)
+(* [LossFlat] is satisfiable by a loss that does depend on the values: the
+   square of the default loss (dx^2 + dy^2) of a two-point interval. *)
+Definition sq_default_loss (xs : list (option xq)) (ys : list (option (Y xq))) : xq :=
+  match xs, ys with
+  | [Some x0; Some x1], [Some (YS y0); Some (YS y1)] =>
+      xadd (xmul (xsub x1 x0) (xsub x1 x0)) (xmul (xsub y1 y0) (xsub y1 y0))
+  | _, _ => xzero
+  end.
+
+Lemma xsub_self a : xsub a a = xzero.
+Proof. destruct a; cbn; try reflexivity. unfold xzero. f_equal. ring. Qed.
+
+Lemma flat_value mn mx v :
+  xltb v mn = false -> xltb mx v = false -> xeqb (xsub mx mn) xzero = true -> v = mn.
+Proof.
+  destruct mn as [a| |], mx as [b| |], v as [c| |]; cbn; try discriminate; try reflexivity.
+  intros H1 H2 H3. apply qeq_true in H3.
+  assert (b = a) as -> by (transitivity ((b - a) + a); [ring|rewrite H3; ring]).
+  f_equal. apply Qcle_antisym; apply Qcnot_lt_le; intros H; apply qlt_true in H; congruence.
+Qed.
+
+Lemma sq_default_loss_flat ky : LossFlat xsub xdiv xltb xeqb xzero xone xis_nan sq_default_loss (scl ky).
+Proof.
+  intros xs ys B HB. unfold sq_default_loss.
+  destruct xs as [|[x0|] [|[x1|] [|? ?]]]; try reflexivity;
+  destruct ys as [|[[y0|?]|] [|[[y1|?]|] [|? ?]]]; try reflexivity.
+  cbn [map option_map ymap].
+  destruct (HB (YS y0)) as [A0 S0]; [now left|]. destruct (HB (YS y1)) as [A1 _]; [right; now left|].
+  destruct B as [[mn|?] [mx|?]]; cbn [absorbed] in A0, A1; try contradiction.
+  cbn [spread] in S0. destruct A0 as [A0 A0'], A1 as [A1 A1'].
+  rewrite (flat_value _ _ _ A0 A0' S0), (flat_value _ _ _ A1 A1' S0). now rewrite !xsub_self.
+Qed.
+
+(* a concrete, non-trivial instance: bounds [0,1] scaled by 3/2, values by 5;
+   both learners told the end points and asked for one point *)
+Example l1d_scale_example :
+  let P := mkparams (Fin 0) (Fin 1) (Fin 0) 0 (Fin (Q2Qc 2)) in
+  let kx := Q2Qc (3 # 2) in let ky := Q2Qc 5 in
+  let h := [Tell (Fin 0) (YS (Fin 0)); Tell (Fin 1) (YS (Fin 1)); Ask 1 true] in
+  legal xadd xsub xmul xdiv xltb xeqb xzero xone PInf NInf xis_nan xis_inf xround12 xof_nat
+        sq_default_loss P false (init xsub xzero PInf NInf P) h.
+Proof. cbn. repeat split. Qed.
